@@ -22,7 +22,7 @@ RULE = ('For each catalogued topology and generated speeds/delays (< 100 ms) a r
         'links with messages in flight or a buffered partial set at the kill, or the fault was a stall/never-restart. Distinct = distinct case value.')
 ASSUMPTIONS = ['socket model of DESIGN.md section 3.3; "fair schedule" = every runnable actor runs and every message is delivered, which the simulator guarantees',
                'liveness is bounded liveness in virtual time on sampled schedules; an adversarial infinite schedule is out of reach']
-BUDGET = {'quick': 75, 'thorough': 1200}
+BUDGET = {'quick': 90, 'thorough': 1200}
 B_MS = 7000
 CONN_TIMEOUT_MS = 5000
 
@@ -35,7 +35,7 @@ def prepare():
     _S['harness'] = harness
 
 
-TOPOS = ['chain', 'tee', 'rejoin', 'balance', 'watch', 'ephfirst']
+TOPOS = ['chain', 'tee', 'rejoin', 'balance', 'watch', 'ephfirst', 'ephmid']
 
 
 def build_nodes(case):
@@ -64,6 +64,12 @@ def build_nodes(case):
                  {'id': 'E', 'beh': {'kind': 'src', 'n': N, 'work': [40], 'topics': ['aux']}},
                  {'id': 'K', 'sources': ['E?;aux>side', 'S'], 'nout': 0, 'beh': {'kind': 'sink', 'work': [0 if case.get('fast_src') else w[2]]}}]
         sinks, required_of = ['K'], {'K': 'S'}
+    elif case['topo'] == 'ephmid':
+        # a filter whose only source is an ephemeral attachment feeds a synchronized consumer (FilterA -> FilterD('A?') -> FilterE of the zeromq.py header)
+        nodes = [{'id': 'S', 'beh': {'kind': 'src', 'n': N, 'work': [3 if case.get('fast_src') else w[0]]}},
+                 {'id': 'M', 'sources': ['S?'], 'beh': {'kind': 'xf', 'work': [0 if case.get('fast_src') else w[1]]}, 'required': ['K'] if req else None},
+                 {'id': 'K', 'sources': ['M'], 'nout': 0, 'beh': {'kind': 'sink', 'work': [0 if case.get('fast_src') else w[2]]}}]
+        sinks, required_of = ['K'], {'K': 'M'}
     elif case['topo'] == 'watch':
         # a viewer attached with '?' is the source's only consumer (a Webvis on a camera)
         nodes = [{'id': 'S', 'beh': {'kind': 'src', 'n': N, 'work': [3 if case.get('fast_src') else w[0]]}},
@@ -106,7 +112,7 @@ def reference_steps(case):
     p = harness.Pipeline(nodes, net=case['net'], seed=6, ipc=case.get('ipc', False))
     try:
         p.start_all()
-        p.run(REF_MS)
+        p.run(case.get('ref_ms', REF_MS))
         n = p.world.nevents
     finally:
         p.finish()
@@ -154,7 +160,7 @@ def run_case(case, nref=None):
                         if restart is not None:
                             world.at(world.now + restart * 1_000_000, lambda: p.spawn(victim, at_ms=0))
         p.world.step_hook = step
-        p.run(REF_MS + 1500, stop=lambda: obs['t_fault'] is not None)
+        p.run(case.get('ref_ms', REF_MS) + 1500, stop=lambda: obs['t_fault'] is not None)
         p.world.step_hook = None
         if obs['t_fault'] is None:
             return ok(False, ['fault point not reached'], None)
@@ -211,7 +217,9 @@ def run_case(case, nref=None):
     nontrivial = obs['inflight'] or fault == 'stall' or dead_for_good
     if obs['inflight']:
         classes.append('messages in flight at the kill')
-    return ok(nontrivial, classes, {'t_fault_ms': round(t_f), 'kstep': kstep, 'ref_steps': nref, 'frames_after': {k: len([r for r in calls[k] if r['t'] / 1e6 > t_last]) for k in consumers}})
+    firsts = [min([r['t'] / 1e6 for r in calls[k] if r.get('in') and r['t'] / 1e6 > t_last], default=None) for k in consumers if not (k == victim and dead_for_good)]
+    recovery = max(firsts) - t_last if firsts and None not in firsts else None
+    return ok(nontrivial, classes, {'t_fault_ms': round(t_f), 'recovery_ms': recovery, 'kstep': kstep, 'ref_steps': nref, 'frames_after': {k: len([r for r in calls[k] if r['t'] / 1e6 > t_last]) for k in consumers}})
 
 
 def enum_cases(tier):
@@ -246,22 +254,45 @@ def run_enum(case):
 
 
 def aimed_cases(tier):
-    """The two topologies with an ephemeral attachment, their source killed after it has been up (and counting) for a while."""
-    for topo in ('watch', 'ephfirst'):
-        for required in (True,):
-            for frac in (0.25, 0.5, 0.75, 0.95):
-                for restart in (0, 300, 2000):
-                    yield {'topo': topo, 'required': required, 'work': [20, 0, 0], 'victim': 0, 'kfrac': frac, 'kstep': 0, 'fault': 'kill', 'restart': restart, 'stall_ms': 6000,
-                           'fast_src': True, 'net': {'cls': 'lan', 'delays': [[500, 3000]], 'conn': [500, 9000], 'drops': [], 'ties': [0], 'flush': True, 'reconn_lag_ms': 0}, 'ipc': False}
+    """The topologies with an ephemeral attachment: the publisher behind it (or, for 'ephmid', the filter in the middle) is killed after it
+    has been up - and counting - for a while."""
+    cases = []
+    for topo in ('ephmid', 'watch', 'ephfirst'):
+        for frac in (0.25, 0.5, 0.75, 0.95):
+            for restart in (0, 300, 2000):
+                # 'longer': the same kill point after three times the uptime - the time to recover must not grow with the time the pipeline has been up
+                longer = (frac in (0.5, 0.95) and restart in (0, 2000)) if topo == 'ephmid' else (frac == 0.5 and restart == 0)
+                cases.append({'topo': topo, 'required': True, 'work': [20, 0, 0], 'victim': 1 if topo == 'ephmid' else 0, 'longer': longer, 'kfrac': frac, 'kstep': 0,
+                              'fault': 'kill', 'restart': restart, 'stall_ms': 6000, 'fast_src': True,
+                              'net': {'cls': 'lan', 'delays': [[500, 3000]], 'conn': [500, 9000], 'drops': [], 'ties': [0], 'flush': True, 'reconn_lag_ms': 0}, 'ipc': False})
+    return sorted(cases, key=lambda c: not c['longer'])     # the expensive ones first: what a budget cuts off is the tail
+
+
+GROWTH_MS = 1500
 
 
 def run_aimed(case):
     nref = reference_steps(case)
-    return run_case({**case, 'kstep': int(nref * case['kfrac'])}, nref)
+    out = run_case({**case, 'kstep': int(nref * case['kfrac'])}, nref)
+    if not out['ok'] or not case.get('longer'):
+        return out
+    long_case = {**case, 'ref_ms': 3 * REF_MS}
+    nref3 = reference_steps(long_case)
+    out3 = run_case({**long_case, 'kstep': int(nref3 * case['kfrac'])}, nref3)
+    if not out3['ok']:
+        out3['msg'] = '[killed after three times the uptime] ' + out3['msg']
+        return out3
+    r1, r3 = (out['summary'] or {}).get('recovery_ms'), (out3['summary'] or {}).get('recovery_ms')
+    if r1 is not None and r3 is not None and r3 > r1 + GROWTH_MS:
+        return bad(f'the time to recover grows with the time the pipeline has been up: victim killed at {out["summary"]["t_fault_ms"]} ms -> frames flow again after {r1:.0f} ms, '
+                   f'killed at {out3["summary"]["t_fault_ms"]} ms -> after {r3:.0f} ms (restart delay {case["restart"]} ms)', 'recovery-grows-with-uptime', out['classes'] + ['uptime x3'])
+    out['classes'] = out['classes'] + ['uptime x3: recovery time compared']
+    out['summary'] = {**(out['summary'] or {}), 'recovery_ms_after_3x_uptime': r3}
+    return out
 
 
 PARTS = [
-    Part('viewer_restarts', run_aimed, kind='enum', cases=aimed_cases, share=0.2),
+    Part('viewer_restarts', run_aimed, kind='enum', cases=aimed_cases, share=0.25),
     Part('sampled_faults', run_case, strategy=case_strategy, examples={'quick': 60, 'thorough': 1500}, share=0.45),
     Part('kill_point_sweep', run_enum, kind='enum', cases=enum_cases, share=0.4),
 ]
